@@ -191,11 +191,13 @@ static int upipe_agg_set_flow_def(struct upipe *upipe, struct uref *flow_def)
     struct uref *flow_def_dup;
     if ((flow_def_dup = uref_dup(flow_def)) == NULL)
         return UBASE_ERR_ALLOC;
-    UBASE_RETURN(uref_block_flow_set_size(flow_def_dup, upipe_agg->output_size))
-
-    if (octetrate) {
-        UBASE_RETURN(uref_clock_set_latency(flow_def_dup, latency +
-                    (uint64_t)upipe_agg->output_size * UCLOCK_FREQ / octetrate))
+    int err = uref_block_flow_set_size(flow_def_dup, upipe_agg->output_size);
+    if (ubase_check(err) && octetrate)
+        err = uref_clock_set_latency(flow_def_dup, latency +
+                    (uint64_t)upipe_agg->output_size * UCLOCK_FREQ / octetrate);
+    if (unlikely(!ubase_check(err))) {
+        uref_free(flow_def_dup);
+        return err;
     }
     upipe_agg_store_flow_def(upipe, flow_def_dup);
     return UBASE_ERR_NONE;
